@@ -88,6 +88,7 @@ class BadIndex(Contract):
 class Unbound(Contract):
     key, prop = "t.py::unbound", "T"
     variants = [True, False]
+    allow_unconstrained_exit = True      # this case is only about the UnboundLocalError of the other variant
 
     def setup(self, E, v):
         return dict(flag=v)
